@@ -631,6 +631,7 @@ type Frame struct {
 	lastEdge map[*ssa.BasicBlock]map[*ssa.BasicBlock]T
 	frame    *frameSpec
 	loopKeys map[*ssa.BasicBlock][]string
+	loopRidx map[*ssa.BasicBlock][]*Cell
 }
 
 type Exec struct {
@@ -879,6 +880,22 @@ func (fr *Frame) loopHeader(h *ssa.BasicBlock, cond T, st *State) (T, *State) {
 		cs = append(cs, c)
 	}
 	sort.Slice(cs, func(i, j int) bool { return cs[i].ID < cs[j].ID })
+	// implicit invariant for compiler-generated range indices: -1 <= rangeindex
+	var ridx []*Cell
+	if h.Comment == "rangeindex.loop" {
+		for _, c := range cs {
+			if c.Name == "rangeindex" {
+				if v, ok := pre.cells[c].(T); ok {
+					ridx = append(ridx, c)
+					vc.oblige("inv-init", fmt.Sprintf("loop%d.rangeindex", ord), "implicit: -1 <= rangeindex", nil, fr.headerPosStr(h), cond, Le(I(-1), v))
+				}
+			}
+		}
+	}
+	if fr.loopRidx == nil {
+		fr.loopRidx = map[*ssa.BasicBlock][]*Cell{}
+	}
+	fr.loopRidx[h] = ridx
 	for _, c := range cs {
 		if _, ok := st.cells[c]; !ok {
 			continue
@@ -886,9 +903,19 @@ func (fr *Frame) loopHeader(h *ssa.BasicBlock, cond T, st *State) (T, *State) {
 		if _, isClos := st.cells[c].(*ClosV); isClos {
 			continue
 		}
-		st.cells[c] = vc.freshVal(c.Typ, c.Name)
+		nv := vc.freshVal(c.Typ, c.Name)
+		// slice offsets that are literally zero before the loop and on every write stay zero
+		if osv, ok := st.cells[c].(*SliceV); ok && osv.Off.S == "0" && !rec.offNon0[c] {
+			if nsv, ok := nv.(*SliceV); ok {
+				nsv.Off = I(0)
+			}
+		}
+		st.cells[c] = nv
 		if st.rec != nil {
 			st.rec.cells[c] = true
+			if rec.offNon0[c] {
+				st.rec.offNon0[c] = true
+			}
 		}
 	}
 	for _, k := range sortedKeys(rec.glob) {
@@ -920,6 +947,11 @@ func (fr *Frame) loopHeader(h *ssa.BasicBlock, cond T, st *State) (T, *State) {
 			fr.loopKeys = map[*ssa.BasicBlock][]string{}
 		}
 		fr.loopKeys[h] = keys
+	}
+	for _, c := range ridx {
+		if v, ok := st.cells[c].(T); ok {
+			vc.assert(Imp(cond, Le(I(-1), v)))
+		}
 	}
 	ev2 := fr.evaluator(st)
 	ev2.loopPre = pre
@@ -978,6 +1010,11 @@ func (fr *Frame) backEdge(h *ssa.BasicBlock, cond T, st *State) {
 			}
 		}
 	}
+	for _, c := range fr.loopRidx[h] {
+		if v, ok := st.cells[c].(T); ok {
+			vc.oblige("inv-pres", fmt.Sprintf("loop%d.rangeindex", ord), "implicit: -1 <= rangeindex", nil, fr.headerPosStr(h), cond, Le(I(-1), v))
+		}
+	}
 	if lc == nil {
 		return
 	}
@@ -1005,7 +1042,17 @@ func (fr *Frame) val(v ssa.Value) Val {
 	case *ssa.Function:
 		return &ClosV{Fn: c}
 	case *ssa.Global:
-		return &PtrV{Kind: PGlobal, Glob: "G_" + sanitize(c.Pkg.Pkg.Name()+"_"+c.Name())}
+		key := "G_" + sanitize(c.Pkg.Pkg.Name()+"_"+c.Name())
+		// sentinel errors (package-level `var ErrX = errors.New(...)`) are distinct non-nil constants at function entry
+		if strings.HasPrefix(c.Name(), "Err") && !vc.decl[key+"$sentinel"] {
+			if pt, ok := c.Type().Underlying().(*types.Pointer); ok && types.IsInterface(pt.Elem()) {
+				vc.decl[key+"$sentinel"] = true
+				g0 := vc.initGlob(key, SInt)
+				vc.sigs = append(vc.sigs, fmt.Sprintf("(assert (= %s %d))", g0.S, 900000+vc.eng.addrKind(key)))
+				vc.assume("sentinel error variables (Err*) are non-nil, pairwise distinct and never reassigned before function entry")
+			}
+		}
+		return &PtrV{Kind: PGlobal, Glob: key}
 	case *ssa.Builtin:
 		return c
 	case *ssa.FreeVar:
